@@ -179,6 +179,11 @@ func TestCheck(t *testing.T) {
 			asmCfgs = append(asmCfgs, asmConfig{Equip: equip, SpacingMs: 1000, Chunk: 244, Sizes: []int{2, 1, 3}})
 			asmDepth = append(asmDepth, D-2)
 		}
+		if !asmHook() {
+			asmCfgs = nil
+			c.Add("hook_unavailable:assembler", 1)
+			c.Assume("ASSEMBLER-COMPONENT PART SKIPPED: the harness export of the secs1 assembler does not compile against this tree")
+		}
 		for ci, cfg := range asmCfgs {
 			if part != "" && part != "asm" {
 				break
